@@ -242,11 +242,13 @@ def evaluate(ctx, cases, label, kmax=9, n_random=6, big_F=200, forced=None):
                 trees[sso] = plaquette_spanning_tree(lat, shortest_edges_only=sso)
             except Exception as e:
                 trees[sso] = e
+        tls = []
         for sso in (False, True):
             t = trees[sso]
             tt = [] if isinstance(t, Exception) else [int(x) for x in np.asarray(t).ravel()]
-            kl = ser_list([int(Fraction(x) * KS) for x in keys], hx) if sso else "0"
-            lines.append("span " + line + " " + kl + " " + ser_tables(lat) + " " + ser_list(tt, ser_onat))
+            tls.append(ser_list(tt, ser_onat))
+        kl = ser_list([int(Fraction(x) * KS) for x in keys], hx)
+        lines.append("span " + line + " " + kl + " " + ser_tables(lat) + " " + tls[0] + " " + tls[1])
         meta.append((trees, tie))
     outs = run_driver_parallel(ctx.exe["c14"], lines)
 
@@ -267,10 +269,12 @@ def evaluate(ctx, cases, label, kmax=9, n_random=6, big_F=200, forced=None):
             res.violation(k, what, case)
 
         good_tree = {}
+        o = outs[idx]
+        if "error" in o:
+            raise RuntimeError(f"driver error {o['error']} on {c}")
+        if o["agree"][0] != "1":
+            viol("tables-disagree", "edges.adjacent_plaquettes and the plaquettes' edge lists describe different incidences (C02)", {})
         for j, sso in enumerate((False, True)):
-            o = outs[2 * idx + j]
-            if "error" in o:
-                raise RuntimeError(f"driver error {o['error']} on {c}")
             t = trees[sso]
             if isinstance(t, Exception):
                 viol("tree-raises", f"plaquette_spanning_tree(shortest_edges_only={sso}) raised {type(t).__name__}: {t}", {"shortest_edges_only": sso})
@@ -278,9 +282,7 @@ def evaluate(ctx, cases, label, kmax=9, n_random=6, big_F=200, forced=None):
             bad = tree_spec(lat, t)
             for k_, what in bad:
                 viol(k_, f"shortest_edges_only={sso}: {what}", {"shortest_edges_only": sso, "tree": [int(x) for x in t]})
-            if o["agree"][0] != "1":
-                viol("tables-disagree", "edges.adjacent_plaquettes and the plaquettes' edge lists describe different incidences (C02)", {})
-            ist = o["ist"][0] == "1"
+            ist = o[f"ist{j}"][0] == "1"
             if ist != (not bad):
                 viol("tree-checker", f"shortest_edges_only={sso}: extracted is_spanning_tree = {ist}, Python restatement found {[b_[0] for b_ in bad]}", {"shortest_edges_only": sso})
             if not bad:
@@ -288,18 +290,21 @@ def evaluate(ctx, cases, label, kmax=9, n_random=6, big_F=200, forced=None):
             # K: the implementation's run must be a run of the model for SOME candidate order
             # (replay oracle: the implementation's chosen edge is scanned first)
             tl = [int(x) if int(x) >= 0 else None for x in np.asarray(t).ravel()]
-            ft = None if o["ftree"][0] == "ERR" else onats(o["ftree"])
+            ft = None if o[f"ftree{j}"][0] == "ERR" else onats(o[f"ftree{j}"])
             res.traces += 1
             if ft != tl:
                 ctx.k_mismatch(f"{label}: shortest_edges_only={sso}: the implementation's tree {tl} is not a run of the model (replay on the implementation's tables gives {ft})", {"lattice": c, "shortest_edges_only": sso})
             elif generic:
-                mt = None if o["mftree"][0] == "ERR" else onats(o["mftree"])
+                mt = None if o[f"mftree{j}"][0] == "ERR" else onats(o[f"mftree{j}"])
                 if mt != tl:
                     ctx.k_mismatch(f"{label}: shortest_edges_only={sso}: the implementation's tree {tl} is not a run of the model end to end (replay gives {mt})", {"lattice": c, "shortest_edges_only": sso})
             # informational: does the implementation scan its candidates in the coded order?
-            tt = None if o["ttree"][0] == "ERR" else onats(o["ttree"])
             oc = res.extra.setdefault("candidate_order_as_coded", {})
-            kk = f"shortest={sso}:" + ("tie-skipped" if (sso and tie) else "same-tree" if tt == tl else "different-tree(allowed)")
+            if o[f"ttree{j}"][0] == "SKIP":
+                kk = f"shortest={sso}:not-compared(F>60)"
+            else:
+                tt = None if o[f"ttree{j}"][0] == "ERR" else onats(o[f"ttree{j}"])
+                kk = f"shortest={sso}:" + ("tie-skipped" if (sso and tie) else "same-tree" if tt == tl else "different-tree(allowed)")
             oc[kk] = oc.get(kk, 0) + 1
         if not good_tree:
             continue
